@@ -165,14 +165,21 @@ Proof.
 Qed.
 
 (* ---------- the outcome of a step ---------- *)
+(* what an acknowledged operation leaves: its change -- or, for a delete, a database that a concurrent writer has
+   created again after the config document was deleted (DeleteConfig then leaves that entry alone) *)
+Definition acked_r (o : opk) (st : store) : Prop :=
+  acked_state o st \/
+  exists d e, o = ODelete d /\ aget (regc st) d = Some e /\ is_deleted (rv_ver (e_cur e)) = false.
+
 Definition StepOut (w : world) (i : nat) (nd : node) (st' : store) (nd' : node) : Prop :=
   SInv st' /\ CasB st' /\ effect w i nd st' /\
   ClaimsQ st' (fun d => quiet w d i) nd' /\
   sn_cas (n_reg nd') <= scas st' /\
   (s_reg st' = s_reg (w_st w) -> inflight_pc (n_pc nd') = true -> inflight_pc (n_pc nd) = true) /\
   (active_pc (n_pc nd') = true -> active_pc (n_pc nd) = false ->
-   nobusy active_pc (op_db (n_op nd)) w i) /\
-  (n_pc nd' = PDone ROk -> n_pc nd <> PDone ROk -> acked_state (n_op nd) st').
+   forall j X, j <> i -> nth_error (w_nodes w) j = Some X -> busy active_pc (op_db (n_op nd)) X = true ->
+               weakfin X = true /\ n_pc nd' = PInsCfg) /\
+  (n_pc nd' = PDone ROk -> n_pc nd <> PDone ROk -> acked_r (n_op nd) st').
 
 Lemma out_same w i nd nd' :
   SInv (w_st w) -> CasB (w_st w) ->
@@ -214,6 +221,17 @@ Proof.
   - intros Hp. contradiction.
 Qed.
 
+Lemma out_gen_r w i nd st' nd' :
+  SInv st' -> CasB st' -> effect w i nd st' ->
+  ClaimsQ st' (fun d => quiet w d i) nd' -> sn_cas (n_reg nd') <= scas st' ->
+  (inflight_pc (n_pc nd') = true -> inflight_pc (n_pc nd) = true) ->
+  (active_pc (n_pc nd') = true -> active_pc (n_pc nd) = true) ->
+  (n_pc nd' = PDone ROk -> acked_r (n_op nd) st') ->
+  StepOut w i nd st' nd'.
+Proof.
+  intros HS HB HE HC Hc H1 H2 H3. repeat (split; [assumption|]). split; [auto|]. split; [|auto].
+  intros Hp Hq. rewrite (H2 Hp) in Hq. discriminate.
+Qed.
 Lemma out_gen w i nd st' nd' :
   SInv st' -> CasB st' -> effect w i nd st' ->
   ClaimsQ st' (fun d => quiet w d i) nd' -> sn_cas (n_reg nd') <= scas st' ->
@@ -221,10 +239,7 @@ Lemma out_gen w i nd st' nd' :
   (active_pc (n_pc nd') = true -> active_pc (n_pc nd) = true) ->
   (n_pc nd' = PDone ROk -> acked_state (n_op nd) st') ->
   StepOut w i nd st' nd'.
-Proof.
-  intros HS HB HE HC Hc H1 H2 H3. repeat (split; [assumption|]). split; [auto|]. split; [|auto].
-  intros Hp Hq. rewrite (H2 Hp) in Hq. discriminate.
-Qed.
+Proof. intros HS HB HE HC Hc H1 H2 H3. apply out_gen_r; auto. intros Hp. left. auto. Qed.
 
 Lemma reg_write_out st nd k st1 :
   SInv st -> CasB st -> cur st nd ->
@@ -269,10 +284,32 @@ Lemma busy_active_split d X : busy active_pc d X = busy inflight_pc d X || busy 
 Proof. unfold busy, active_pc. destruct (negb (n_crashed X)), (op_db (n_op X) =? d), (inflight_pc (n_pc X)), (final_pc (n_pc X)); reflexivity. Qed.
 
 Lemma alone_of_active w i nd d :
-  OneActive w -> nth_error (w_nodes w) i = Some nd -> busy active_pc d nd = true -> nobusy active_pc d w i.
+  OneActive w -> nth_error (w_nodes w) i = Some nd -> busy active_pc d nd = true ->
+  weakfin nd = false -> n_pc nd <> PInsCfg -> nobusy active_pc d w i.
 Proof.
-  intros Hone Hi Hb j X Hj Hn. destruct (busy active_pc d X) eqn:E; [|reflexivity]. exfalso.
-  exact (Hone i j nd X d (fun E0 => Hj (eq_sym E0)) Hi Hn Hb E).
+  intros Hone Hi Hb Hwk Hp j X Hj Hn. destruct (busy active_pc d X) eqn:E; [|reflexivity]. exfalso.
+  destruct (Hone i j nd X d (fun E0 => Hj (eq_sym E0)) Hi Hn Hb E) as [[A _]|[_ A]]; congruence.
+Qed.
+
+(* how the phases follow each other *)
+Lemma do_step_phase st nd ex pk st' nd' b :
+  do_step st nd ex pk = (st', nd', b) ->
+  (final_pc (n_pc nd) = true -> active_pc (n_pc nd') = true -> final_pc (n_pc nd') = true) /\
+  (n_pc nd = PInsCfg -> active_pc (n_pc nd') = true -> n_pc nd' = PInsCfg).
+Proof.
+  unfold do_step. intros H. destruct (n_pc nd) eqn:Hpc; (split; [intros Hf; try discriminate | intros Hp; try discriminate]).
+  - destruct (n_op nd); [|injection H as <- <- <-; auto ..].
+    destruct (cfg_insert st _ _); injection H as <- <- <-; cbn; discriminate.
+  - cbn [n_reg set_reg sn_reg] in H.
+    destruct (n_op nd);
+      repeat match type of H with
+      | context [match ?x with _ => _ end] => destruct x
+      | context [if ?x then _ else _] => destruct x
+      end; injection H as <- <- <-; cbn; auto.
+  - repeat match type of H with
+    | context [match ?x with _ => _ end] => destruct x
+    | context [if ?x then _ else _] => destruct x
+    end; injection H as <- <- <-; cbn; auto.
 Qed.
 Lemma nobusy_active_inflight w i d : nobusy active_pc d w i -> quiet w d i.
 Proof. intros H j X Hj Hn. specialize (H j X Hj Hn). rewrite busy_active_split in H. now apply orb_false_iff in H as [H _]. Qed.
